@@ -271,34 +271,19 @@ func (s *ServerKeyStore) listRotatedRings(path string, purpose keystore.KeyPurpo
 		return nil, err
 	}
 
-	keys, err := ring.AllKeys()
+	rotatedKeys, err := rotatedKeySeqnums(ring)
 	if err != nil {
-		log.WithError(err).Debug("Failed to read all key ids")
+		log.WithError(err).Debug("Failed to read rotated key ids")
 		return nil, err
-	}
-
-	if len(keys) == 0 {
-		return []keystore.KeyDescription{}, nil
 	}
 
 	// Index represent virtual index of key
 	// 1 is always index of current key of the keystore
 	// all rotated keys have index after 1
 	keyIdx := 1
-	result := make([]keystore.KeyDescription, 0, len(keys)-1)
-	for i := 1; i < len(keys); i++ {
-		keyState, err := ring.State(i)
-		if err != nil {
-			log.WithError(err).Debug("Failed to get key state by seqnum")
-			return nil, err
-		}
-
-		// if the key was destroyed previously, ignore it
-		if keyState == api.KeyDestroyed {
-			continue
-		}
-
-		creationTime, err := ring.ValidSince(i)
+	result := make([]keystore.KeyDescription, 0, len(rotatedKeys))
+	for _, seqnum := range rotatedKeys {
+		creationTime, err := ring.ValidSince(seqnum)
 		if err != nil {
 			log.WithError(err).Debug("Failed to get creation time state by segnum")
 			return nil, err
@@ -320,36 +305,17 @@ func (s *ServerKeyStore) listRotatedRings(path string, purpose keystore.KeyPurpo
 
 // destroyRingRotatedKeyByIndex destroy rotated key from the ring by its index
 func destroyRingRotatedKeyByIndex(ring api.MutableKeyRing, index int) error {
-	keys, err := ring.AllKeys()
+	rotatedActiveKeys, err := rotatedKeySeqnums(ring)
 	if err != nil {
 		return err
-	}
-
-	rotatedActiveKeys := make([]int, 0, len(keys))
-
-	// indexes in the ring incrementally increases, starting from 1
-	// we need to iterate until (not inclusive) the last index which represent the current key
-	for i := 1; i < len(keys); i++ {
-		keyState, err := ring.State(i)
-		if err != nil {
-			log.WithError(err).Debug("Failed to get key state by seqnum")
-			return err
-		}
-
-		// if the key was destroyed previously, ignore it
-		if keyState == api.KeyDestroyed {
-			continue
-		}
-		rotatedActiveKeys = append(rotatedActiveKeys, i)
 	}
 
 	if index-1 > len(rotatedActiveKeys) {
 		log.WithField("index", index).Debug("no key matched to index")
 		return ErrInvalidIndex
 	}
-	// Keyring internally stores keys from older to newer and the newest key has index len(keys) -1
-	// So we decrease once to start from the len(keys)-1 position. Incoming parameter index represents the virtual index
-	// starting from 1 where 1 is the newest key. But slices work with 0-indexation, so we decrease one more time
+	// Incoming parameter index represents the virtual index of the rotated keys listing:
+	// 1 is the current key, the rotated keys follow from 2, in the order of rotatedKeySeqnums().
 	idxToDestroy := index - 2
 
 	keyToDestroy := rotatedActiveKeys[idxToDestroy]
@@ -359,4 +325,41 @@ func destroyRingRotatedKeyByIndex(ring api.MutableKeyRing, index int) error {
 	}
 
 	return nil
+}
+
+// rotatedKeySeqnums returns the sequence numbers of the rotated keys of a key ring, oldest first:
+// all keys that are neither the current key nor destroyed. The current key is the one the key ring
+// names as current, which is not always the newest key of the ring (a key that has been added but
+// not made current yet, an imported key ring).
+func rotatedKeySeqnums(ring api.KeyRing) ([]int, error) {
+	// from newest to oldest
+	seqnums, err := ring.AllKeys()
+	if err != nil {
+		return nil, err
+	}
+	current, err := ring.CurrentKey()
+	hasCurrent := true
+	if err == api.ErrNoCurrentKey {
+		hasCurrent = false
+	} else if err != nil {
+		return nil, err
+	}
+	rotated := make([]int, 0, len(seqnums))
+	for i := len(seqnums) - 1; i >= 0; i-- {
+		seqnum := seqnums[i]
+		if hasCurrent && seqnum == current {
+			continue
+		}
+		keyState, err := ring.State(seqnum)
+		if err != nil {
+			log.WithError(err).Debug("Failed to get key state by seqnum")
+			return nil, err
+		}
+		// if the key was destroyed previously, ignore it
+		if keyState == api.KeyDestroyed {
+			continue
+		}
+		rotated = append(rotated, seqnum)
+	}
+	return rotated, nil
 }
